@@ -211,7 +211,16 @@ def strip_info():
             shape = 'class+$'
         else:
             shape = 'other:' + pat
-    return dict(assigns=assigns, strip_set=strip_set, shape=shape)
+    # the statements of parse_sql up to the call of the parser, as written (ast.unparse): what is done to the text, which
+    # object lexes it and what the parser is given
+    prelude = []
+    for st in fn.body:
+        if isinstance(st, pyast.Expr) and isinstance(st.value, pyast.Constant):
+            continue   # docstring
+        prelude.append(pyast.unparse(st))
+        if 'parser.parse(' in prelude[-1]:
+            break
+    return dict(assigns=assigns, strip_set=strip_set, shape=shape, prelude=prelude)
 
 
 def term_names(parser):
@@ -285,6 +294,8 @@ def emit_lean(b):
     out.append('def termNames : List String := [%s]' % ', '.join(json.dumps(x) for x in b['terms']))
     out.append('/-- the statements of parse_sql that assign `sql` (what happens to the text before it is lexed) -/')
     out.append('def sqlAssigns : List String := [%s]' % ', '.join(json.dumps(x) for x in b['strip']['assigns']))
+    out.append('/-- parse_sql from its first statement to the call of the parser, statement by statement (ast.unparse) -/')
+    out.append('def prelude : List String := [%s]' % ', '.join(json.dumps(x) for x in b['strip']['prelude']))
     out.append('/-- shape of the one `re.sub(<pattern>, \'\', sql)` among them: "class+$" = a trailing run of one character class -/')
     out.append('def stripShape : String := %s' % json.dumps(b['strip']['shape']))
     out.append('/-- that character class (tabulated with the real engine) -/')
@@ -301,7 +312,7 @@ def main(gen_lean, gen_json):
         setmap = {n: [list(r) for r in rs] for n, rs in b['sets']}
         js = dict(dialect=d, cls=b['cls'], flags=b['flags'], word=[list(r) for r in b['word']],
                   ignore=[list(r) for r in b['ignore']], literals=b['literals'], remapping=b['remapping'],
-                  funcs=b['funcs'], unsupported=b['unsupported'], terms=b['terms'], strip=dict(assigns=b['strip']['assigns'], shape=b['strip']['shape'], strip_set=[list(r) for r in b['strip']['strip_set']]),
+                  funcs=b['funcs'], unsupported=b['unsupported'], terms=b['terms'], strip=dict(assigns=b['strip']['assigns'], prelude=b['strip']['prelude'], shape=b['strip']['shape'], strip_set=[list(r) for r in b['strip']['strip_set']]),
                   rules=[[n, json_re(t, setmap), ign] for n, t, ign in b['rules']])
         T.write_if_changed(os.path.join(gen_json, 'lexre_%s.json' % d), json.dumps(js))
         info['lexre_%s' % d] = dict(rules=len(b['rules']), sets=len(b['sets']), unsupported=b['unsupported'])
